@@ -319,6 +319,8 @@ def check(F, run, tier):
     from ..through import closure
     swept = set()
     for q, np_ in SWEEP:
+        if q.endswith("::WriteContainerSize") and not F.by_qn.get(q):
+            continue            # inlined into WriteTileGroups, which is swept
         primary = F.fn(q, nparams=np_)
         for fn in closure(F, primary):       # the writer function and the helpers it is split into
             if fn.key in swept:
